@@ -11,6 +11,7 @@ import Pdlv.Cxx
 import Pdlv.PySpec
 import Pdlv.Java
 import Pdlv.JavaSpec
+import Pdlv.JavaStruct
 import Pdlv.Interop
 import Pdlv.Analyzer
 import Pdlv.ToJson
@@ -367,11 +368,11 @@ def handle (st : State) (req : Json) : Except String (State × Json) := do
         | "javaenc" =>
           -- the model of `toBytes()` the Java back end emits (bit-field groups only)
           let v ← valueOfJson (← c.getObjVal? "v")
-          pure (encOut (Java.encBody cfg b v))
+          pure (encOut (Java.encBodyS cfg b v))
         | "javadec" =>
           match hexToBytes (← J.str c "hex").toList with
           | none => throw "bad hex"
-          | some bs => pure (decOut ((Java.decodeFull cfg b bs).bind fun v => .ok (v, [])))
+          | some bs => pure (decOut ((Java.decodeFullS cfg b bs).bind fun v => .ok (v, [])))
         | "cxxenc" =>
           -- the model of the serializer the C++ back end emits
           let v ← valueOfJson (← c.getObjVal? "v")
